@@ -1,12 +1,20 @@
 ------------------------------ MODULE Lineage ------------------------------
 (* Lineage-keyed reuse of stored data (property C02): Context.register / set_config / new_context,
    plugin resolution through the per-context plugin cache (_fixed_plugin_cache, _context_hash,
-   __get_plugin, _plugins_to_cache: strax/context.py:723-921), lineage construction
-   (__add_lineage_to_plugin), key_for, and load-or-compute-and-save.
+   __get_plugin, _plugins_to_cache: strax/context.py), configuration of a plugin (_set_plugin_config,
+   incl. child plugins), lineage construction (__add_lineage_to_plugin), key_for, load-or-compute-and-save,
+   fuzzy matching.
 
-   A chain of three data types 1 <- 2 <- 3 (source, mid, top).  Every type has one tracked option
-   (option k belongs to type k); type 2 also has an untracked option (option 4).  Several plugin
-   classes exist per type: same name with another default, another version, another class name.
+   Four data types: 1 src <- 2 mid <- 3 top, and 4 kid <- 2 mid.  Options:
+     1, 2, 3  tracked, option k taken by type k (and option 3 inherited by type 4, see below);
+     4        untracked, taken by type 2;
+     5        tracked, *shared*: taken by types 1, 3 and 4;
+     6        tracked *child option* of type 4 with parent option 3.
+   Type 4 is provided by a child plugin: a subclass of a type-3 class (its parent, fixed per class: pname / pver).
+   It computes with the parent's code, in which the parent's option 3 is replaced by the value of option 6; its
+   lineage entry holds its own name and version, its tracked options without the overridden parent option, and
+   the parent's name -> version.  Several plugin classes exist per type: same name with another default, another
+   version, another class name, (type 4) another parent version.
 
    I-level: the cache is modelled as the code keeps it ([h, p]: the context hash it was built for and
    type |-> resolved plugin record); CtxHash contains the config and the registered *versions* only.
@@ -15,7 +23,7 @@
 
    Fuzzy matching (context options fuzzy_for / fuzzy_for_options; StorageFrontend._matches / _filter_lineage,
    DataDirectory._find, Context._find_options, the "Not saving ... while fuzzy matching" rule): fz is the set of
-   data types, fzo the set of (tracked) option names ignored when a stored lineage is compared with the wanted one;
+   data types, fzo the set of option names ignored when a stored lineage is compared with the wanted one;
    an exact match is preferred, otherwise any stored entry whose filtered lineage equals the filtered wanted lineage
    is accepted (the directory scan order decides which: nondeterministic here), otherwise the type is computed from
    its (possibly fuzzily found) input; nothing is written while fz or fzo is non-empty.
@@ -23,16 +31,22 @@
    Repaired = TRUE: register() drops the plugin cache (the "fix:" commit); FALSE: as found.       *)
 EXTENDS Naturals, Sequences, FiniteSets, TLC
 
-CONSTANTS Classes,    \* set of [t, name, ver, def, uid, nv]: class uid provides type t; nv identifies (name, version):
-                      \* classes with the same name and version are the same code by strax's contract, their output
-                      \* carries nv, the effective tracked option value and the input it was computed from
+CONSTANTS Classes,    \* set of [t, name, ver, def, uid, nv, pname, pver]: class uid provides type t; nv identifies (name, version,
+                      \* parent version): classes with the same nv are the same code by strax's contract, their output carries nv,
+                      \* the effective option values and the input it was computed from; def = default of the class's own option
+                      \* (option t for t <= 3, option 6 for t = 4); pname / pver: the parent class of a child plugin ("" / 0 otherwise)
           Repaired,
-          FzChoices, FzoChoices,   \* the values fuzzy_for / fuzzy_for_options may be set to (sets of types / of option numbers 1..3)
+          FzChoices, FzoChoices,   \* the values fuzzy_for / fuzzy_for_options may be set to (sets of types / of option numbers)
           MaxLen      \* bound on the history length (model checking only)
 
-T == 1..3
-Opts == 1..4                  \* 1..3 tracked (type k), 4 untracked (type 2)
+T == 1..4
+Dep(i) == CASE i = 1 -> 0 [] i = 2 -> 1 [] i = 3 -> 2 [] i = 4 -> 2
+Anc(i) == CASE i = 1 -> {1} [] i = 2 -> {1, 2} [] i = 3 -> {1, 2, 3} [] i = 4 -> {1, 2, 4}
+Opts == 1..6
 Vals == 0..2                  \* 0 = not set in the context config
+SharedDefault == 1            \* every class declares the shared option with this default
+OwnOpt(t) == IF t = 4 THEN 6 ELSE t
+TakesShared(t) == t \in {1, 3, 4}
 ClassesOf(t) == {c \in Classes : c.t = t}
 
 VARIABLES registry, config, cache, store,
@@ -41,28 +55,36 @@ VARIABLES registry, config, cache, store,
           len
 vars == <<registry, config, cache, store, fz, fzo, last, len>>
 FuzzyOn == fz # {} \/ fzo # {}
-\* _filter_lineage: entries of fuzzy types dropped, fuzzy options dropped from every entry (option k belongs to type k)
-Filter(lin) == [k \in DOMAIN lin |-> IF k \in fz THEN <<"*">> ELSE IF k \in fzo THEN <<lin[k][1], lin[k][2]>> ELSE lin[k]]
 
-Eff(cls, cfg) == IF cfg[cls.t] # 0 THEN cfg[cls.t] ELSE cls.def
-Lin1(cls, cfg) == <<cls.name, cls.ver, Eff(cls, cfg)>>
-TrueLineage(i) == [k \in 1..i |-> Lin1(registry[k], config)]
+\* effective value of the class's own option (for a child plugin: of its child option, which replaces the parent's option 3)
+Eff(cls, cfg) == IF cfg[OwnOpt(cls.t)] # 0 THEN cfg[OwnOpt(cls.t)] ELSE cls.def
+EffShared(cls, cfg) == IF TakesShared(cls.t) THEN (IF cfg[5] # 0 THEN cfg[5] ELSE SharedDefault) ELSE 0
+\* lineage entry of one plugin: name, version, tracked options (option number -> value), parent name -> version for a child plugin
+Lin1(cls, cfg) == [name |-> cls.name, ver |-> cls.ver,
+                   opts |-> [o \in {OwnOpt(cls.t)} \cup (IF TakesShared(cls.t) THEN {5} ELSE {}) |->
+                               IF o = 5 THEN EffShared(cls, cfg) ELSE Eff(cls, cfg)],
+                   par |-> IF cls.t = 4 THEN <<cls.pname, cls.pver>> ELSE <<>>]
+TrueLineage(i) == [k \in Anc(i) |-> Lin1(registry[k], config)]
+\* _filter_lineage: entries of fuzzy types dropped, fuzzy options dropped from every entry
+Filter(lin) == [k \in (DOMAIN lin) \ fz |-> [lin[k] EXCEPT !.opts = [o \in (DOMAIN lin[k].opts) \ fzo |-> lin[k].opts[o]]]]
+\* what one plugin adds to the provenance of its output
+Digits(cls, cfg) == cls.nv * 100 + Eff(cls, cfg) * 10 + EffShared(cls, cfg)
 RECURSIVE Expected(_)
-Expected(i) == IF i = 0 THEN 0 ELSE Expected(i - 1) * 100 + registry[i].nv * 10 + Eff(registry[i], config)
+Expected(i) == IF i = 0 THEN 0 ELSE Expected(Dep(i)) * 1000 + Digits(registry[i], config)
 
 \* _context_hash: the config and (version, ...) of every registered type - not the class, not the defaults
 CtxHash == <<config, [k \in T |-> registry[k].ver]>>
 NoCache == [h |-> <<>>, p |-> <<>>]
 Has(ch, i) == ch.h = CtxHash /\ i \in DOMAIN ch.p
 
-\* __get_plugin: <<record, cache'>>; record = [cls, val, lin]
+\* __get_plugin: <<record, cache'>>; record = [cls, dig, lin]
 RECURSIVE Resolve(_, _)
 Resolve(i, ch) ==
   IF Has(ch, i) THEN <<ch.p[i], ch>>
-  ELSE LET dep == IF i = 1 THEN <<[lin |-> <<>>], ch>> ELSE Resolve(i - 1, ch)
+  ELSE LET dep == IF Dep(i) = 0 THEN <<[lin |-> <<>>], ch>> ELSE Resolve(Dep(i), ch)
            ch1 == dep[2]
-           rec == [cls |-> registry[i], val |-> Eff(registry[i], config),
-                   lin |-> dep[1].lin \o <<Lin1(registry[i], config)>>]
+           rec == [cls |-> registry[i], dig |-> Digits(registry[i], config),
+                   lin |-> (i :> Lin1(registry[i], config)) @@ dep[1].lin]
            ch2 == IF ch1.h = CtxHash THEN [h |-> ch1.h, p |-> (i :> rec) @@ ch1.p]
                   ELSE [h |-> CtxHash, p |-> (i :> rec)]
        IN <<rec, ch2>>
@@ -76,8 +98,8 @@ DataOf(i, ch, st) ==
       fhit == IF FuzzyOn THEN {s \in st : s.t = i /\ Filter(s.key) = Filter(rec.lin)} ELSE {}
   IN IF hit # {} THEN {<<s.code, st>> : s \in hit}
      ELSE IF fhit # {} THEN {<<s.code, st>> : s \in fhit}
-     ELSE LET D == IF i = 1 THEN {<<0, st>>} ELSE DataOf(i - 1, ch, st)
-          IN {LET code == d[1] * 100 + rec.cls.nv * 10 + rec.val
+     ELSE LET D == IF Dep(i) = 0 THEN {<<0, st>>} ELSE DataOf(Dep(i), ch, st)
+          IN {LET code == d[1] * 1000 + rec.dig
               IN <<code, IF FuzzyOn THEN d[2] ELSE d[2] \cup {[t |-> i, key |-> rec.lin, code |-> code]}>> : d \in D}
 
 Init == /\ registry \in [T -> Classes] /\ \A k \in T : registry[k].t = k /\ registry[k] = CHOOSE c \in ClassesOf(k) : \A d \in ClassesOf(k) : c.uid <= d.uid
@@ -134,22 +156,24 @@ FuzzyExpected(i) ==
            M == {s \in store : s.t = i /\ Filter(s.key) = Filter(want)}
        IN IF ex # {} THEN {s.code : s \in ex}
           ELSE IF M # {} THEN {s.code : s \in M}
-          ELSE {c * 100 + registry[i].nv * 10 + Eff(registry[i], config) : c \in FuzzyExpected(i - 1)}
+          ELSE {c * 1000 + Digits(registry[i], config) : c \in FuzzyExpected(Dep(i))}
 FuzzyAccepts == (last.a = "get" /\ FuzzyOn) => last.code \in FuzzyExpected(last.t)
 \* nothing computed under fuzzy matching is written
 NothingWrittenUnderFuzzy == [][FuzzyOn => store' = store]_vars
 \* the key is a function of the true lineage
 KeyIsLineage == last.a \in {"get", "key"} => last.key = TrueLineage(last.t)
-\* static laws of the key function: a tracked option / version / class change moves the keys of exactly the
-\* type and its descendants; an untracked option moves nothing
-KeyOf(reg, cfg, i) == [k \in 1..i |-> Lin1(reg[k], cfg)]
-TrackedMoves == \A o \in 1..3 : \A v \in Vals :
+\* static laws of the key function.  Which types an option reaches: its takers and their descendants; the parent option 3 does not
+\* reach the child plugin (type 4), whose option 6 replaces it; the untracked option reaches nothing.
+KeyOf(reg, cfg, i) == [k \in Anc(i) |-> Lin1(reg[k], cfg)]
+Takers(o) == CASE o = 1 -> {1} [] o = 2 -> {2} [] o = 3 -> {3} [] o = 4 -> {} [] o = 5 -> {1, 3, 4} [] o = 6 -> {4}
+EffOf(cls, cfg, o) == IF o = 5 THEN EffShared(cls, cfg) ELSE Eff(cls, cfg)
+OptionMoves == \A o \in Opts : \A v \in Vals :
                   LET cfg2 == [config EXCEPT ![o] = v]
-                      changed == Eff(registry[o], cfg2) # Eff(registry[o], config)
-                  IN \A i \in T : (KeyOf(registry, cfg2, i) # KeyOf(registry, config, i)) <=> (changed /\ i >= o)
-UntrackedMovesNothing == \A v \in Vals : \A i \in T : KeyOf(registry, [config EXCEPT ![4] = v], i) = KeyOf(registry, config, i)
+                  IN \A i \in T : (KeyOf(registry, cfg2, i) # KeyOf(registry, config, i))
+                                  <=> (\E k \in Anc(i) \cap Takers(o) : EffOf(registry[k], cfg2, o) # EffOf(registry[k], config, o))
 ClassMoves == \A c \in Classes :
                 LET reg2 == [registry EXCEPT ![c.t] = c]
-                    changed == Lin1(c, config) # Lin1(registry[c.t], config)
-                IN \A i \in T : (KeyOf(reg2, config, i) # KeyOf(registry, config, i)) <=> (changed /\ i >= c.t)
+                    changed == (c.name # registry[c.t].name \/ c.ver # registry[c.t].ver \/ Eff(c, config) # Eff(registry[c.t], config)
+                                \/ c.pname # registry[c.t].pname \/ c.pver # registry[c.t].pver)
+                IN \A i \in T : (KeyOf(reg2, config, i) # KeyOf(registry, config, i)) <=> (changed /\ c.t \in Anc(i))
 =============================================================================
